@@ -31,6 +31,8 @@ func c10Ops() []string {
 			}
 		}
 	}
+	// `_` is another spelling of message: renaming a key onto itself under the two spellings
+	ops = append(ops, "rename(message, _)", "rename(_, message)", "rename(_, f1)", "rename(t1, _)", "drop_key(_)", "add_key(_, 2)", "set_tag(_)")
 	return ops
 }
 
@@ -141,7 +143,7 @@ func genC11(e *emitter, tier string, seed int64) {
 		`replace(k, "[a-c]+", "X")`, `replace(k, "(", "X")`, `replace(k, "l+", "$0$0")`,
 		"url_decode(k)", `url_decode("k")`,
 		// `_` stands for message
-		"add_key(_, 1)", "p(get_key(_))", "drop_key(_)", "rename(newk, _)", "uppercase(_)", "trim(_)", "set_tag(_)", `cast(_, "int")`, "add_key(nk, _)",
+		"add_key(_, 1)", "p(get_key(_))", "drop_key(_)", "rename(newk, _)", "rename(message, _)", "rename(_, message)", `rename("message", _)`, "rename(_, _)", "rename(_, k)", "rename(k, _)", "uppercase(_)", "trim(_)", "set_tag(_)", `cast(_, "int")`, "add_key(nk, _)",
 	}
 	_ = rng
 	for _, s := range subjects {
